@@ -40,9 +40,42 @@
      C05_refuted_dead_end   (F3)  strict causality, environment dead end,
                                   initial memory _hold = none;
      C05_refuted_stale_hold (F12) a stale persistence index after one step.
-   They are listed in /verif/KNOWN_FINDINGS.txt; the check reports any other
-   blocking state, and any failure of (a), memory ranges, or liveness found by
-   the closed-loop search, as a violation. *)
+   They are listed in /verif/KNOWN_FINDINGS.txt.
+
+   (f) BLOCKING ONLY IN THESE TWO CLASSES (C05_blocks_only_in_known_classes;
+   model composed with the generated solver, fuel >= number of valuations,
+   all four modes): at EVERY valuation of the winning region (reachable or
+   not) with the memory in range (_goal = j < number of goals, _hold = h <=
+   number of persistence sets), the synthesized action allows a step - for
+   every next environment value if Mealy, with one choice good for all next
+   environment values if Moore - unless the state is in
+     class F3 : h = none, strict causality (plus_one), and the state is an
+                environment dead end: cpre(FALSE) in the mode's quantifier
+                order (the component can make the environment's action false
+                while keeping its own), or
+     class F12: h = i < number of persistence sets and the state is outside
+                y_{k,i}, where k is the state's level (the first z_k that
+                contains it) - a stale persistence index.
+   These are the classes as tools/props/c05.py `classify` computes them on
+   the real implementation (there the dead end is read in the extended arena:
+   C05_dead_end_in_extended_arena shows it is the same set).  The proof
+   (GenProofs/RabinNB1-3.v) establishes, by invariants of the translated loops,
+   that z_k = z_{k-1} \/ (some y_{k,i}), that y_{k,i} <= cpre(y_{k,i}), that at
+   the exit of the Y loop every recorded attractor chain ends in y_{k,i}, and
+   that each chain element adds only states of cpre(previous element) or of
+   the goal; then rho_1 (cpre of the previous basin), rho_2 (h = none at a
+   rim), rho_4 (goal reached) or rho_3 (descent in the attractor) offers a
+   step.  At a dead end without strict causality the escape "\/ ~ env_action"
+   offers every step; at a dead end with strict causality and a persistence
+   index held, the steps that falsify the environment's action pass through
+   rho_4 (its controllable action has no rim outside the extra conjunct) -
+   which is why class F3 needs h = none.  The hypotheses on H and G (the
+   numbers of values of the two memory fields) hold for the declared fields
+   (C05_memory_fields_fit).
+
+   The check reports any blocking state outside the two classes, and any
+   failure of (a), memory ranges, or liveness found by the closed-loop
+   search, as a violation. *)
 From Coq Require Import List Bool Arith Lia.
 Import ListNotations.
 From Omega Require Import L4.Arena L4.Kleene L4.Tables.
@@ -53,6 +86,8 @@ From OmegaGen Require BitsGen.
 From OmegaGP Require Import CounterWidth.
 From OmegaGP Require Import TransducerModel TransducerBridge StreettTProofs RabinTProofs
   RabinTProofs2 StreettNB2 StreettClosure1 RabinClosure2 RabinLive2.
+From Omega Require Import L4.GameSpec.
+From OmegaGP Require Import RabinIter1 RabinNB3.
 Local Open Scope bool_scope.
 
 Theorem C05_construction_is_translated :
@@ -195,6 +230,83 @@ Proof.
   constructor; intros i; vm_compute; repeat split.
 Qed.
 
+(* (f) the synthesized action blocks only in the two known classes.
+   Valuations of the extended arena: [ev (H*G) c x yb m x' yb' m'] has base
+   component value yb (yb') and memory m (m'), a memory being
+   _hold * G + _goal; [fidx zk s] is the first index k with zk[k] s = true. *)
+Theorem C05_blocks_only_in_known_classes :
+  forall nc nx ny (E S : bdd) (holds goals : list bdd) (moore plus_one : bool) fuel H G
+         c x yb h j,
+  NV nc nx ny <= fuel ->
+  Forall spred holds -> Forall spred goals ->          (* state predicates *)
+  length goals <= G -> length holds < H ->             (* the memory fields hold every value used *)
+  c < nc -> x < nx -> yb < ny ->
+  j < length goals -> h <= length holds ->             (* memory in range; h = length holds is "none" *)
+  let sol := Gr1Gen.solve_rabin_game nc nx ny E S holds goals moore plus_one fuel in
+  let zk := fst (fst sol) in
+  let yki := snd (fst sol) in
+  let s := sv c x yb in
+  last zk bfalse s = true ->                           (* a winning valuation *)
+  let k := fidx zk s in                                (* its level *)
+  (* not in class F3 *)
+  ~ (h = length holds /\ plus_one = true /\
+     cpre_spec nx ny moore plus_one E S bfalse s = true) ->
+  (* not in class F12 *)
+  ~ (h < length holds /\ nth h (nth k yki []) bfalse s = false) ->
+  let L := lift nc nx ny (H * G) in
+  let A := rabin_action nc nx ny H G (L E) (L S) (map L holds) (map L goals) moore plus_one
+             (map L zk) (map (map L) yki) (map (map (map (map L))) (snd sol)) in
+  exists h' j', h' < H /\ j' < G /\
+    if moore
+    then exists yb', yb' < ny /\
+           forall x', x' < nx -> A (ev (H * G) c x yb (h * G + j) x' yb' (h' * G + j')) = true
+    else forall x', x' < nx -> exists yb', yb' < ny /\
+           A (ev (H * G) c x yb (h * G + j) x' yb' (h' * G + j')) = true.
+Proof.
+  intros nc nx ny E S holds goals moore plus_one fuel H G c x yb h j
+         Hf Sh Sg HnG HnH Hc Hx Hyb Hj Hh sol zk yki s Hwin k N3 N12 L A.
+  exact (rabin_impl_blocks_only_known nc nx ny E S holds goals moore plus_one H G fuel
+           Hf Sh Sg HnG HnH c x yb h j Hc Hx Hyb Hj Hh Hwin N3 N12).
+Qed.
+
+(* the dead ends of class F3 may equally be read in the extended arena, as
+   the closed-loop search does (FALSE lifted is FALSE) *)
+Theorem C05_dead_end_in_extended_arena :
+  forall nc nx ny M (E S : bdd) (moore plus_one : bool) v,
+  0 < M ->
+  cpre_spec nx (ny * M) moore plus_one (lift nc nx ny M E) (lift nc nx ny M S) bfalse v =
+  cpre_spec nx ny moore plus_one E S bfalse (bv M v).
+Proof.
+  intros nc nx ny M E S moore plus_one v HM.
+  exact (cpre_lift_eq nc nx ny M E S moore plus_one bfalse v HM).
+Qed.
+
+(* non-vacuity of (f): in the game of C05_liveness_example the hypotheses
+   hold at the state (0,0,0) both with _hold = none (1) and with _hold = 0 *)
+Example C05_blocks_only_example :
+  let E : bdd := fun v => true in
+  let S : bdd := fun v => Nat.eqb (vyp v) (vy v) in
+  let P : bdd := fun v => true in
+  let R : bdd := fun v => true in
+  let sol := Gr1Gen.solve_rabin_game 1 1 2 E S [P] [R] false false 5 in
+  NV 1 1 2 <= 5 /\ Forall spred [P] /\ Forall spred [R] /\
+  length [R] <= 1 /\ length [P] < 2 /\
+  last (fst (fst sol)) bfalse (sv 0 0 0) = true /\
+  (forall h, h <= 1 ->
+     ~ (h = 1 /\ false = true /\ cpre_spec 1 2 false false E S bfalse (sv 0 0 0) = true) /\
+     ~ (h < 1 /\ nth h (nth (fidx (fst (fst sol)) (sv 0 0 0)) (snd (fst sol)) []) bfalse
+                   (sv 0 0 0) = false)).
+Proof.
+  cbv zeta. split; [vm_compute; repeat constructor|].
+  split; [repeat constructor; intros v; reflexivity|].
+  split; [repeat constructor; intros v; reflexivity|].
+  split; [cbn; lia|]. split; [cbn; lia|].
+  split; [vm_compute; reflexivity|].
+  intros h Hh. split.
+  - intros [_ [Hf _]]. discriminate Hf.
+  - intros [Hlt Hn]. assert (h = 0) by lia. subst h. vm_compute in Hn. discriminate Hn.
+Qed.
+
 Section Refuted_dead_end.
 Let E := of_table2 1 2 2 [(bitsN 4 15%N);
   (bitsN 4 12%N);
@@ -283,6 +395,16 @@ Example C05_refuted_stale_hold :
      environment value although the environment can keep its action *)
   blocked 0 0 2 = true.
 Proof. vm_compute. repeat split; repeat constructor. Qed.
+
+(* the blocked state above (base valuation (0,0,0), memory 2 = _hold 1,
+   _goal 0) is in class F12 of C05_blocks_only_in_known_classes: the held
+   persistence index 1 is below the number of persistence sets, and the state
+   is outside y_{k,1} for its level k *)
+Example C05_refuted_stale_hold_is_class_F12 :
+  (2 mod 8) / 2 = 1 /\ 1 < length P /\
+  last (fst (fst sol)) bfalse (sv 0 0 0) = true /\
+  nth 1 (nth (fidx (fst (fst sol)) (sv 0 0 0)) (snd (fst sol)) []) bfalse (sv 0 0 0) = false.
+Proof. vm_compute. repeat split; repeat constructor. Qed.
 End Refuted_stale_hold.
 
 Print Assumptions C05_construction_is_translated.
@@ -294,5 +416,9 @@ Print Assumptions C05_region_closed.
 Print Assumptions C05_reachable_states_winning.
 Print Assumptions C05_liveness.
 Print Assumptions C05_liveness_example.
+Print Assumptions C05_blocks_only_in_known_classes.
+Print Assumptions C05_dead_end_in_extended_arena.
+Print Assumptions C05_blocks_only_example.
 Print Assumptions C05_refuted_dead_end.
 Print Assumptions C05_refuted_stale_hold.
+Print Assumptions C05_refuted_stale_hold_is_class_F12.
